@@ -203,6 +203,25 @@ Definition dense_step_t (s : dcols * dfound) (f : Z * wval) : result (dcols * df
       end
   end.
 
+(* ---------- accumulation: which element values are DELTA coded, and in which integer type ---------- *)
+Inductive accum := Plain | Delta64 | Delta32.
+Definition accum_name (k : accum) : string :=
+  match k with Plain => "plain" | Delta64 => "delta:int64" | Delta32 => "delta:int32" end.
+(* x += v *)
+Definition acc_l (k : accum) (prev v : Z) : Z :=
+  match k with Plain => v | Delta64 => wrap64 (prev + v) | Delta32 => wrap32 (prev + v) end.
+(* prev = v + prev *)
+Definition acc_r (k : accum) (prev v : Z) : Z :=
+  match k with Plain => v | Delta64 => wrap64 (v + prev) | Delta32 => wrap32 (v + prev) end.
+Fixpoint kind_of (n : Z) (t : list (Z * accum)) : accum :=
+  match t with [] => Plain | (k, a) :: r => if n =? k then a else kind_of n r end.
+
+Definition dense_accum : list (Z * accum) := [(1, Delta64); (8, Delta64); (9, Delta64); (10, Plain)].
+Definition dinfo_accum : list (Z * accum) :=
+  [(1, Plain); (2, Delta64); (3, Delta64); (4, Delta32); (5, Delta32); (6, Plain)].
+Definition way_accum : list (Z * accum) := [(2, Plain); (3, Plain); (8, Delta64); (9, Delta64); (10, Delta64)].
+Definition rel_accum : list (Z * accum) := [(2, Plain); (3, Plain); (8, Plain); (9, Delta64); (10, Plain)].
+
 (* element accessors of extractDenseNodes, read from the tables *)
 Definition a_ids := elem1 1 dense_table.
 Definition a_lats := elem1 8 dense_table.
@@ -231,29 +250,29 @@ Fixpoint kv_loop_t (st : list bytes) (kv : list Z) (tags : list tag) : result (l
 
 Definition extract_pre_t (p : bparams) (v1 : Z) (x : xst) : result (node * xst) :=
   let dc := x_dc x in let ic := c_info dc in let n := x_n x in let i := n_info n in
-  let id := wrap64 (a_id x + ev_z a_ids v1) in
+  let id := acc_l (kind_of 1 dense_accum) (a_id x) (ev_z a_ids v1) in
   ' (ov, cver) <- col_next (c_versions ic) ;;;
-  let ver := match ov with Some v2 => ev_z a_ver v2 | None => i_version i end in
+  let ver := match ov with Some v2 => acc_l (kind_of 1 dinfo_accum) 0 (ev_z a_ver v2) | None => i_version i end in
   ' (ot, cts) <- col_next (c_timestamps ic) ;;;
-  let ats := match ot with Some v3 => wrap64 (a_ts x + ev_z a_ts' v3) | None => a_ts x end in
+  let ats := match ot with Some v3 => acc_l (kind_of 2 dinfo_accum) (a_ts x) (ev_z a_ts' v3) | None => a_ts x end in
   let ts := match ot with Some _ => Some (ts_ns ats (dgran p)) | None => i_ts i end in
   ' (oc, ccs) <- col_next (c_changesets ic) ;;;
-  let acs := match oc with Some v4 => wrap64 (a_cs x + ev_z a_cs' v4) | None => a_cs x end in
+  let acs := match oc with Some v4 => acc_l (kind_of 3 dinfo_accum) (a_cs x) (ev_z a_cs' v4) | None => a_cs x end in
   let cs := match oc with Some _ => acs | None => i_cs i end in
   ' (ou, cuid) <- col_next (c_uids ic) ;;;
-  let auid := match ou with Some v5 => wrap32 (a_uid x + ev_z a_uid' v5) | None => a_uid x end in
+  let auid := match ou with Some v5 => acc_l (kind_of 4 dinfo_accum) (a_uid x) (ev_z a_uid' v5) | None => a_uid x end in
   let uid := match ou with Some _ => auid | None => i_uid i end in
   ' (os, cusid) <- col_next (c_usids ic) ;;;
-  let ausid := match os with Some v6 => wrap32 (a_usid x + ev_z a_usid' v6) | None => a_usid x end in
+  let ausid := match os with Some v6 => acc_l (kind_of 5 dinfo_accum) (a_usid x) (ev_z a_usid' v6) | None => a_usid x end in
   user <- match os with Some _ => idx (p_st p) ausid | None => Ok (i_user i) end ;;;
   ' (ob, cvis) <- col_next (c_visibles ic) ;;;
   let vis := match ob with Some v7 => ev_b a_vis v7 | None => i_visible i end in
   match c_lats dc, c_lons dc with
   | Some lats, Some lons =>
       ' (v8, lats') <- it_next lats ;;;
-      let alat := wrap64 (a_lat x + ev_z a_lats v8) in
+      let alat := acc_l (kind_of 8 dense_accum) (a_lat x) (ev_z a_lats v8) in
       ' (v9, lons') <- it_next lons ;;;
-      let alon := wrap64 (a_lon x + ev_z a_lons v9) in
+      let alon := acc_l (kind_of 9 dense_accum) (a_lon x) (ev_z a_lons v9) in
       ' (ckv, tags) <- match c_keyvals dc with
                        | None => Ok (None, n_tags n)
                        | Some kv => ' (kv', t) <- kv_loop_t (p_st p) kv (n_tags n) ;;; Ok (Some kv', t)
@@ -276,13 +295,13 @@ Definition way_table : list (row wslot) :=
     mkRow 9 WLat "" MIter [ASint64];
     mkRow 10 WLon "" MIter [ASint64] ].
 
-Fixpoint fill_t (a : acc) (f : Z -> wnode -> wnode) (l : list Z) (prev : Z) (index : nat) (nodes : list wnode)
+Fixpoint fill_t (a : acc) (k : accum) (f : Z -> wnode -> wnode) (l : list Z) (prev : Z) (index : nat) (nodes : list wnode)
   : result (list wnode) :=
   match l with
   | [] => full nodes index
   | v :: r =>
-      let prev' := wrap64 (ev_z a v + prev) in
-      nodes' <- upd nodes index (f prev') ;;; fill_t a f r prev' (S index) nodes'
+      let prev' := acc_r k prev (ev_z a v) in
+      nodes' <- upd nodes index (f prev') ;;; fill_t a k f r prev' (S index) nodes'
   end.
 
 Definition way_step_t (p : bparams) (s : wst) (f : Z * wval) : result wst :=
@@ -303,17 +322,17 @@ Definition way_step_t (p : bparams) (s : wst) (f : Z * wval) : result wst :=
       | WInfo => d <- as_msg v ;;; i <- info_loop p d (w_info w) ;;;
           Ok (mkWst (mkWay (w_id w) i (w_tags w) (w_nodes w)) wc (ws_fk s) (ws_fv s))
       | WRefs => l <- as_packed v ;;;
-          ns <- fill_t e set_wid l 0 O (alloc_nodes (w_nodes w) l) ;;;
+          ns <- fill_t e (kind_of 8 way_accum) set_wid l 0 O (alloc_nodes (w_nodes w) l) ;;;
           Ok (mkWst (mkWay (w_id w) (w_info w) (w_tags w) ns)
                 (mkWC (c_keys wc) (c_vals wc) (Some []) (c_wlats wc) (c_wlons wc) (c_roles wc) (c_memids wc) (c_types wc))
                 (ws_fk s) (ws_fv s))
       | WLat => l <- as_packed v ;;;
-          ns <- fill_t e (set_wlat p) l 0 O (alloc_nodes (w_nodes w) l) ;;;
+          ns <- fill_t e (kind_of 9 way_accum) (set_wlat p) l 0 O (alloc_nodes (w_nodes w) l) ;;;
           Ok (mkWst (mkWay (w_id w) (w_info w) (w_tags w) ns)
                 (mkWC (c_keys wc) (c_vals wc) (c_nodes wc) (Some []) (c_wlons wc) (c_roles wc) (c_memids wc) (c_types wc))
                 (ws_fk s) (ws_fv s))
       | WLon => l <- as_packed v ;;;
-          ns <- fill_t e (set_wlon p) l 0 O (alloc_nodes (w_nodes w) l) ;;;
+          ns <- fill_t e (kind_of 10 way_accum) (set_wlon p) l 0 O (alloc_nodes (w_nodes w) l) ;;;
           Ok (mkWst (mkWay (w_id w) (w_info w) (w_tags w) ns)
                 (mkWC (c_keys wc) (c_vals wc) (c_nodes wc) (c_wlats wc) (Some []) (c_roles wc) (c_memids wc) (c_types wc))
                 (ws_fk s) (ws_fv s))
@@ -385,7 +404,7 @@ Fixpoint members_loop_t (ar am at' : acc) (st : list bytes) (roles memids types 
       match memids with
       | [] => Err E_EOF
       | mi :: mr =>
-          let memid' := wrap64 (memid + ev_z am mi) in
+          let memid' := acc_l (kind_of 9 rel_accum) memid (ev_z am mi) in
           match types with
           | [] => Err E_EOF
           | t :: tr =>
@@ -408,6 +427,87 @@ Definition header_table : list (string * string * Z) :=
     ("Source", "Source", 17);
     ("WritingProgram", "Writingprogram", 16) ].
 Definition header_bbox_num : Z := 1.
+
+(* ---------- found-flag rules (if !foundX { dec.X = nil } / return error; if foundA && foundB { use }) ---------- *)
+(* flags and iterators are named by the dispatch arm (message variable, field number) that sets / fills them *)
+Definition dense_rules : list frule :=
+  [ mkFR "nil" [("info", 1)] [("info", 1)] []; mkFR "nil" [("info", 2)] [("info", 2)] [];
+    mkFR "nil" [("info", 3)] [("info", 3)] []; mkFR "nil" [("info", 4)] [("info", 4)] [];
+    mkFR "nil" [("info", 5)] [("info", 5)] []; mkFR "nil" [("info", 6)] [("info", 6)] [];
+    mkFR "error" [("msg", 1)] [] []; mkFR "error" [("msg", 8)] [] []; mkFR "error" [("msg", 9)] [] [];
+    mkFR "nil" [("msg", 10)] [("msg", 10)] [];
+    mkFR "nil" [("msg", 5)] [("info", 1); ("info", 2); ("info", 3); ("info", 4); ("info", 5); ("info", 6)] [] ].
+Definition way_rules : list frule := [ mkFR "use" [("msg", 2); ("msg", 3)] [] ["set:Way.Tags"; "call:scanTags"] ].
+Definition rel_rules : list frule :=
+  [ mkFR "use" [("msg", 2); ("msg", 3)] [] ["set:Relation.Tags"; "call:scanTags"];
+    mkFR "use" [("msg", 8); ("msg", 9); ("msg", 10)] [] ["set:Relation.Members"; "call:extractMembers"] ].
+
+Definition ref_eqb (a b : string * Z) : bool := String.eqb (fst a) (fst b) && (snd a =? snd b).
+(* is iterator [col] set to nil, given the flags of scope [sc]? *)
+Definition niled (rules : list frule) (sc : string) (flag : Z -> bool) (col : string * Z) : bool :=
+  existsb (fun r => String.eqb (fr_kind r) "nil"
+                    && forallb (fun f => String.eqb (fst f) sc) (fr_flags r)
+                    && existsb (fun f => negb (flag (snd f))) (fr_flags r)
+                    && existsb (ref_eqb col) (fr_nil r)) rules.
+Definition keep_col (rules : list frule) (sc : string) (flag : Z -> bool) (col : string * Z) (c : iter) : iter :=
+  if niled rules sc flag col then None else c.
+
+Definition iflag (fi : ifound) (n : Z) : bool :=
+  if n =? 1 then fi_ver fi else if n =? 2 then fi_ts fi else if n =? 3 then fi_cs fi
+  else if n =? 4 then fi_uid fi else if n =? 5 then fi_usid fi else if n =? 6 then fi_vis fi else true.
+Definition nil_info_t (fi : ifound) (ic : icols) : icols :=
+  let k := keep_col dense_rules "info" (iflag fi) in
+  mkIC (k ("info", 1) (c_versions ic)) (k ("info", 2) (c_timestamps ic)) (k ("info", 3) (c_changesets ic))
+       (k ("info", 4) (c_uids ic)) (k ("info", 5) (c_usids ic)) (k ("info", 6) (c_visibles ic)).
+
+Definition dflag (fd : dfound) (n : Z) : bool :=
+  if n =? 1 then fd_ids fd else if n =? 5 then fd_info fd else if n =? 8 then fd_lats fd
+  else if n =? 9 then fd_lons fd else if n =? 10 then fd_kv fd else true.
+Definition missing_code (n : Z) : Z := if n =? 1 then E_NO_IDS else if n =? 8 then E_NO_LATS else E_NO_LONS.
+(* the first "error" rule whose flag is not set *)
+Fixpoint first_missing (rules : list frule) (flag : Z -> bool) : option Z :=
+  match rules with
+  | [] => None
+  | r :: t =>
+      if String.eqb (fr_kind r) "error" then
+        match fr_flags r with
+        | [(_, n)] => if flag n then first_missing t flag else Some n
+        | _ => first_missing t flag
+        end
+      else first_missing t flag
+  end.
+Definition dense_fixup_t (s : dcols * dfound) : result dcols :=
+  let dc := fst s in let fd := snd s in
+  match first_missing dense_rules (dflag fd) with
+  | Some n => Err (missing_code n)
+  | None =>
+      let k := keep_col dense_rules "msg" (dflag fd) in
+      let ic := c_info dc in
+      Ok (mkDC (c_ids dc)
+               (mkIC (k ("info", 1) (c_versions ic)) (k ("info", 2) (c_timestamps ic)) (k ("info", 3) (c_changesets ic))
+                     (k ("info", 4) (c_uids ic)) (k ("info", 5) (c_usids ic)) (k ("info", 6) (c_visibles ic)))
+               (c_lats dc) (c_lons dc) (k ("msg", 10) (c_keyvals dc)))
+  end.
+
+(* "use" rules: the flags that must all be set *)
+Definition use_flags (rules : list frule) (what : string) : list Z :=
+  flat_map (fun r => if String.eqb (fr_kind r) "use" && existsb (String.eqb what) (fr_info r)
+                     then map snd (fr_flags r) else []) rules.
+Definition wflag (fk fv : bool) (n : Z) : bool := if n =? 2 then fk else if n =? 3 then fv else true.
+Definition rflag (fk fv fr fm ft : bool) (n : Z) : bool :=
+  if n =? 2 then fk else if n =? 3 then fv else if n =? 8 then fr else if n =? 9 then fm else if n =? 10 then ft else true.
+
+(* the value formulas of the source, with locals replaced by the getter that defines them and values by v;
+   the model's [coord] is  off + gran*v  in int64 (the float factor is applied outside, C01 / CoordFloat),
+   [ts_ns] is  (v * date_granularity) * 1000000 ns  in int64 *)
+Definition expected_formulas : list (string * string * string) :=
+  [ ("extractDenseNodes", "Node.Timestamp", "time.Unix(0, [time.Duration(v * GetDateGranularity) * time.Millisecond].Nanoseconds()).UTC()");
+    ("extractDenseNodes", "Node.Lat", "1e-9 * float64(GetLatOffset + (GetGranularity * v))");
+    ("extractDenseNodes", "Node.Lon", "1e-9 * float64(GetLonOffset + (GetGranularity * v))");
+    ("scanRelations", "Relation.Timestamp", "time.Unix(0, [time.Duration(v * GetDateGranularity) * time.Millisecond].Nanoseconds()).UTC()");
+    ("scanWays", "Way.Timestamp", "time.Unix(0, [time.Duration(v * GetDateGranularity) * time.Millisecond].Nanoseconds()).UTC()");
+    ("scanWays", "Way.Nodes.Lat", "1e-9 * float64(GetLatOffset + (GetGranularity * v))");
+    ("scanWays", "Way.Nodes.Lon", "1e-9 * float64(GetLonOffset + (GetGranularity * v))") ].
 
 (* ---------- the tables as the translator prints the source ---------- *)
 Definition view {S} (targets : S -> list string) (has_call : S -> bool) (r : row S) : darm :=
